@@ -4,20 +4,51 @@ Values of the specification (DESIGN.md 3.1) are tagged records {"k", "l", "t", "
   S  string, l = its pieces split at "_"      I  integer, l = [digits]
   L  list of strings                          T  tuple of values (t)
   D  dictionary (m)
-Data: {"k": "I", "i": n, "t": []} or {"k": "T", "i": 0, "t": [data, ...]}.
+Data: {"k": "I", "i": n, "t": []}, {"k": "T", "i": 0, "t": [data, ...]}, {"k": "N", ..} = None,
+      {"k": "D", "i": n, "t": []} = the dictionary {"layer": n}.
+A "hit" ((x, x + 1), {"layer": x}) is data that itself looks like a (data, context) pair.
 """
 import copy
 import re
 
+def _int(x):
+    """VarSem!Accepts: the integer getters take integers only (2 * tuple must raise as well)."""
+    if not isinstance(x, int) or isinstance(x, bool):
+        raise TypeError("integer data expected, got %r" % (x,))
+    return x
+
+
+def _tup(x):
+    if not isinstance(x, tuple):
+        raise TypeError("tuple data expected, got %r" % (x,))
+    return x
+
+
+def looks_like_value(x):
+    return isinstance(x, tuple) and len(x) == 2 and isinstance(x[1], dict)
+
+
+def _hit(x):
+    if not looks_like_value(x):
+        raise TypeError("(data, dictionary) pair expected, got %r" % (x,))
+    return x
+
+
+# VarSem!G (the S2C replay of Variables_*_c binds the two tables: every getter is exercised)
 GETTERS = {
-    "inc": lambda x: x + 1,
-    "dbl": lambda x: 2 * x,
-    "tri": lambda x: 3 * x,
-    "sq": lambda x: x * x,
-    "add5": lambda x: x + 5,
+    "inc": lambda x: _int(x) + 1,
+    "dbl": lambda x: 2 * _int(x),
+    "tri": lambda x: 3 * _int(x),
+    "sq": lambda x: _int(x) * x,
+    "add5": lambda x: _int(x) + 5,
     "none": lambda x: None,
-    "pair": lambda x: (x, x + 1),
-    "first": lambda t: t[0],
+    "pair": lambda x: (_int(x), x + 1),
+    "first": lambda t: _tup(t)[0],
+    "hit": lambda x: ((_int(x), x + 1), {"layer": x}),
+    "len": lambda t: len(_tup(t)),
+    "layer": lambda h: _hit(h)[1]["layer"],
+    "dflt": lambda x: 7 if x is None else x,
+    "isnone": lambda x: 1 if x is None else 0,
 }
 
 
@@ -69,6 +100,8 @@ def enc_data(d):
         return {"k": "I", "i": d, "t": []}
     if d is None:
         return {"k": "N", "i": 0, "t": []}
+    if isinstance(d, dict) and list(d) == ["layer"] and isinstance(d["layer"], int):
+        return {"k": "D", "i": d["layer"], "t": []}
     return {"k": "other", "i": 0, "t": [], "repr": repr(d)}
 
 
@@ -77,7 +110,46 @@ def dec_data(d):
         return tuple(dec_data(x) for x in d["t"])
     if d["k"] == "N":
         return None
+    if d["k"] == "D":
+        return {"layer": d["i"]}
     return d["i"]
+
+
+def data_kind(x):
+    if x is None:
+        return "none"
+    if looks_like_value(x):
+        return "hit"
+    return "tuple" if isinstance(x, tuple) else "int"
+
+
+def get(e, x):
+    """VarSem!Get: the getter of an expression as a function of data (raises where the spec has DE)."""
+    if e["k"] == "var":
+        return GETTERS[e["v"]["g"]](x)
+    if e["k"] == "cmp":
+        for c in e["ch"]:
+            x = get(c, x)
+        return x
+    return tuple(get(c, x) for c in e["ch"])
+
+
+def defined(chain, x):
+    """VarSem!DefChain and Variables!CombOk for the data x."""
+    try:
+        y = copy.deepcopy(x)
+        for e in chain:
+            y = get(e, y)
+        seq_ok = True
+    except Exception:   # noqa
+        seq_ok = False
+    comb_ok = True
+    for e in chain:
+        try:
+            get(e, copy.deepcopy(x))
+        except Exception:   # noqa
+            comb_ok = False
+    return seq_ok, comb_ok
 
 
 def make(expr, made=None):
@@ -135,6 +207,11 @@ def has_untyped(chain):
                for e in chain)
 
 
+def loses_types(chain):
+    """VarSem!LosesTypes: an untyped variable, or a Combine without type followed by another element."""
+    return has_untyped(chain) or any(e["k"] == "cmb" and not e["v"]["type"] for e in chain[:-1])
+
+
 def start_kind(c):
     var = c.get("variable")
     if "variable" in c and not var:
@@ -154,9 +231,10 @@ def value_of(start, bare=False):
     return (x, copy.deepcopy(c))
 
 
-def run_scenario(chain, start, bare=False):
+def run_scenario(chain, start, bare=False, combok=True):
     """Execute one scenario on the real classes.  Returns a dict of observations:
-    seq / compose / combine: (data, context); repeats; var_context snapshots."""
+    seq / compose / combine: (data, context); repeats; var_context snapshots.
+    combok = False: some member cannot take the starting data, Combine(chain) is not applied."""
     import lena.core
     import lena.flow
     made = []
@@ -175,17 +253,24 @@ def run_scenario(chain, start, bare=False):
 
     seq = lena.core.Sequence(*objs)
     # two equal values in one flow
-    r = list(seq.run([value_of(start, bare), value_of(start, bare)]))
+    # (every result is also frozen at the moment it is produced)
+    r, at_yield = [], []
+    for res in seq.run([value_of(start, bare), value_of(start, bare)]):
+        r.append(res)
+        at_yield.append(copy.deepcopy(norm(res)))
     out["seq_len"] = len(r)
     out["seq"] = norm(r[0]) if r else None
     out["seq2"] = norm(r[1]) if len(r) > 1 else None
+    out["seq_at_yield"] = at_yield
+    dummy = (0, {})
     out["compose"] = norm(comp(value_of(start, bare)))
-    out["combine"] = norm(comb(value_of(start, bare)))
+    out["combine"] = norm(comb(value_of(start, bare))) if combok else dummy
     # repeated application to equal values
     r2 = list(seq.run([value_of(start, bare)]))
     out["rseq"] = norm(r2[0]) if r2 else None
     out["rcompose"] = norm(comp(value_of(start, bare)))
-    out["rcombine"] = norm(comb(value_of(start, bare)))
+    out["rcombine"] = norm(comb(value_of(start, bare))) if combok else dummy
+    out["seq_later"] = [norm(res) for res in r]
     after = [o.var_context for o in made_all]
     out["unchanged"] = [a == b for a, b in zip(before_all, after)]
     out["changed_example"] = next(((repr(o), b, a) for o, a, b in zip(made_all, after, before_all) if a != b), None)
